@@ -389,6 +389,20 @@ func VerifV2In() {
 	L, N := verifnd.Param("L", 2), verifnd.Param("N", 2)
 	lv, lt := wValue(lc, L, 1)
 	rv, rt := wValue(rc, L, N)
+	if rc == wcMap {
+		// map values of every class, nil included, and keys that are present as well as absent:
+		// key presence must not depend on the value
+		m := map[string]any{}
+		names := []string{"k0", "k1", "k2"}
+		nk := verifnd.Int(0, N)
+		for i := 0; i < nk; i++ {
+			m[names[i]], _ = wScalar(verifnd.Int(wcNil, wcString), L)
+		}
+		rv = m
+		if lc == wcString {
+			lv = []string{"k0", "k1", "zz", ""}[verifnd.Choice(4)]
+		}
+	}
 	lk, rk := verifnd.Choice(3), verifnd.Choice(3)
 	expr := &ast.InExpr{Op: "in", LHS: wLeaf(ctx, "x", 1, lv, lt, lk), RHS: wLeaf(ctx, "y", 2, rv, rt, rk)}
 	err := RunInExpr(ctx, expr)
@@ -419,6 +433,9 @@ func VerifV2In() {
 		r, ok := v.(bool)
 		verifnd.Assert(ok && dt == ast.Bool, "in-type")
 		_, has := rv.(map[string]any)[lv.(string)]
+		if has {
+			verifnd.Reach("map-key-present")
+		}
 		verifnd.Assert(r == has, "map-key-value")
 	case wcList:
 		verifnd.Reach("list-elem")
